@@ -311,8 +311,10 @@ Definition payload_bogus_ids (d : dimension) : list Z :=
 (* the other collators: Dimension.subtotals.bogus_ids *)
 Definition plain_bogus_ids (d : dimension) : list Z := map fst (subtotals d).
 
-Definition bogus_ids_for (d : dimension) (o : order_kind) : list Z :=
-  match o with OPayload => payload_bogus_ids d | OExplicit _ => plain_bogus_ids d end.
+(* _BaseAnchoredCollator._display_order_mapping: the display order indexes the dimension's OWN
+   subtotals for every collator (since the repair of finding C07-bogus-ids-payload-mapping; the
+   payload-order collator used [payload_bogus_ids], which now only serves [payload_order]) *)
+Definition bogus_ids_for (d : dimension) (o : order_kind) : list Z := plain_bogus_ids d.
 
 Definition bind {A B} (r : res A) (f : A -> res B) : res B :=
   match r with Ok a => f a | Err c => Err c end.
@@ -455,12 +457,13 @@ Definition display_order (d : dimension) (o : ordering) (empties : list nat) (ps
   bind (helper_order d o empties)
        (fun l => Ok (if psub then filter (fun z => Z.leb 0 z) l else l)).
 
-(* with BOGUS_IDS the `idx >= 0` test of the subtotal pruning compares "ins_N" with 0 *)
+(* with BOGUS_IDS a subtotal is an "ins_N" string: the subtotal pruning drops those (since the
+   repair of finding C07-bogus-ids-prune-subtotals-typeerror; `idx >= 0` used to raise on them) *)
 Definition is_ins (e : entry) : bool := match e with EIns _ => true | EBase _ => false end.
 Definition display_order_bogus (d : dimension) (o : ordering) (empties : list nat) (psub : bool)
   : res (list entry) :=
   bind (helper_order_bogus d o empties)
-       (fun l => if psub then (if existsb is_ins l then Err TypeError else Ok l) else Ok l).
+       (fun l => Ok (if psub then filter (fun e => negb (is_ins e)) l else l)).
 
 (* row_codes / column_codes: (element_ids + insertion_ids)[order] *)
 Definition codes (d : dimension) (order : list Z) : list ident :=
